@@ -35,6 +35,7 @@ type Event struct {
 	Cuts []int  `json:"cuts,omitempty"` // deliver: fragment sizes (remainder = last fragment)
 	Mark int    `json:"mark,omitempty"` // deliver: 1-based index of the message whose handler requests CloseNotify (0: none)
 	Wait bool   `json:"wait,omitempty"` // deliver: wait until every message was handled before the next event
+	Big  []int  `json:"big,omitempty"`  // deliver: Big[k] > 0: message k (0-based) of the event carries an opaque AVP of that many bytes (messages larger than the connection's read buffer)
 }
 
 type Case struct {
@@ -65,6 +66,28 @@ func appMessage(seq int, marked bool) []byte {
 		[]*refcodec.Node{{Code: 263, Flags: 0x40, Payload: []byte(fmt.Sprintf("sess;%d", seq))}, {Code: 3000001, Payload: make([]byte, seq%7)}}, false)
 }
 
+const bigAVP = 3000002 // an opaque AVP (unknown to the dictionary, no M bit) that makes a message large
+
+// bigBody is the recognisable content of the large AVP of message seq.
+func bigBody(seq, size int) []byte {
+	b := make([]byte, size)
+	for i := range b {
+		b[i] = byte(seq*31 + i*7 + i>>8)
+	}
+	return b
+}
+
+// bigMessage is appMessage with one more AVP of size bytes: the whole message is size+~70 bytes.
+func bigMessage(seq int, marked bool, size int) []byte {
+	hbh := uint32(seq)
+	if marked {
+		hbh |= markBit
+	}
+	return refcodec.EncodeMessage(refcodec.Header{Version: 1, Flags: 0x80, Code: 271, App: 0, HopByHop: hbh, EndToEnd: 5},
+		[]*refcodec.Node{{Code: 263, Flags: 0x40, Payload: []byte(fmt.Sprintf("sess;%d", seq))}, {Code: bigAVP, Payload: bigBody(seq, size)},
+			{Code: 3000001, Payload: make([]byte, seq%7)}}, false)
+}
+
 func fragments(all []byte, cuts []int) [][]byte {
 	var out [][]byte
 	off := 0
@@ -87,6 +110,7 @@ func fragments(all []byte, cuts []int) [][]byte {
 type harness struct {
 	mu    sync.Mutex
 	seqs  []int
+	sizes []int // per handled message: length of its large AVP (0: none, -1: content damaged)
 	chans []<-chan struct{}
 	cond  *sync.Cond
 
@@ -116,8 +140,19 @@ func (h *harness) handler(c diam.Conn, m *diam.Message) {
 	if m.Header.HopByHopID&markBit != 0 {
 		ch = c.(diam.CloseNotifier).CloseNotify()
 	}
+	size := 0
+	for _, a := range m.AVP {
+		if a.Code == bigAVP && a.Data != nil {
+			body := a.Data.Serialize()
+			size = len(body)
+			if string(body) != string(bigBody(seq, size)) {
+				size = -1
+			}
+		}
+	}
 	h.mu.Lock()
 	h.seqs = append(h.seqs, seq)
+	h.sizes = append(h.sizes, size)
 	if ch != nil {
 		h.chans = append(h.chans, ch)
 	}
@@ -278,12 +313,18 @@ func runCase(c Case) *ev.Failure {
 	cleanup := func() { mc.Close(); mc.WaitClosed(time.Second) }
 
 	sent := 0
+	bigSent := map[int]int{} // message number -> size of its large AVP
 	for i, e := range c.Events {
 		switch e.Kind {
 		case "deliver":
 			var all []byte
 			for k := 0; k < e.N; k++ {
-				all = append(all, appMessage(sent, e.Mark == k+1)...)
+				if k < len(e.Big) && e.Big[k] > 0 {
+					all = append(all, bigMessage(sent, e.Mark == k+1, e.Big[k])...)
+					bigSent[sent] = e.Big[k]
+				} else {
+					all = append(all, appMessage(sent, e.Mark == k+1)...)
+				}
 				sent++
 			}
 			mc.Feed(fragments(all, e.Cuts)...)
@@ -499,6 +540,7 @@ func runCase(c Case) *ev.Failure {
 	}
 	h.mu.Lock()
 	seqs := append([]int{}, h.seqs...)
+	sizes := append([]int{}, h.sizes...)
 	h.mu.Unlock()
 	if len(seqs) != sent {
 		return ev.Failf("messages-lost-or-duplicated", "%d messages were delivered before termination, the handler saw %v", sent, seqs)
@@ -506,6 +548,11 @@ func runCase(c Case) *ev.Failure {
 	for i, s := range seqs {
 		if s != i {
 			return ev.Failf("messages-lost-or-duplicated", "messages must be dispatched once each in order 0..%d, the handler saw %v", sent-1, seqs)
+		}
+	}
+	for i, sz := range sizes {
+		if sz != bigSent[i] {
+			return ev.Failf("message-damaged", "message %d was sent with a large AVP of %d bytes; the handler received it with %d bytes (-1: right length, other content; 0: no such AVP): a message delivered with another message's bytes is a lost message", i, bigSent[i], sz)
 		}
 	}
 	if g := leaked(promptly); g != "" {
@@ -524,12 +571,23 @@ func classify(c Case) (bool, []string) {
 		switch e.Kind {
 		case "deliver":
 			msgs += e.N
+			before := reqs
 			if e.Mark > 0 && e.Mark <= e.N {
 				reqs++
 				cl = append(cl, "request-in-handler")
 			}
 			if len(e.Cuts) > 0 {
 				cl = append(cl, "fragmented")
+			}
+			for k, sz := range e.Big {
+				if sz > 0 && k < e.N {
+					// the request of a marked handler is made when its own message has been read
+					if before > 0 || c.Mode == "client" || (e.Mark > 0 && k+1 > e.Mark) {
+						cl = append(cl, "large-message-after-request")
+					} else {
+						cl = append(cl, "large-message-before-request")
+					}
+				}
 			}
 		case "req-parked":
 			reqs++
@@ -565,6 +623,10 @@ func classify(c Case) (bool, []string) {
 	return (reqs > 0 || c.Late > 0) && msgs > 0, out
 }
 
+// bigSizes: sizes of the opaque AVP of a large message, around the read buffer of the connection
+// (4 KiB) and its double, the copy buffer of io.Copy (32 KiB) and beyond.
+var bigSizes = []int{3000, 4040, 4100, 5000, 8000, 8200, 9000, 20000, 33000, 70000}
+
 func genEvent(t *rapid.T) Event {
 	switch rapid.IntRange(0, 5).Draw(t, "event") {
 	case 0:
@@ -581,6 +643,17 @@ func genEvent(t *rapid.T) Event {
 		k := rapid.IntRange(0, 6).Draw(t, "cuts")
 		for i := 0; i < k; i++ {
 			e.Cuts = append(e.Cuts, rapid.SampledFrom([]int{1, 2, 19, 20, 21, 30, 44, 60, 100}).Draw(t, "cut"))
+		}
+		if rapid.IntRange(0, 3).Draw(t, "large") == 0 {
+			// one message of the event is larger than the read buffer of the connection; the
+			// fragments may be large, too
+			e.Big = make([]int, e.N)
+			e.Big[rapid.IntRange(0, e.N-1).Draw(t, "large-at")] = rapid.SampledFrom(bigSizes).Draw(t, "large-size")
+			for i := range e.Cuts {
+				if rapid.Bool().Draw(t, "large-cut") {
+					e.Cuts[i] = rapid.SampledFrom([]int{4000, 4076, 4096, 4097, 5000, 8192, 10000, 33000}).Draw(t, "cut")
+				}
+			}
 		}
 		return e
 	}
@@ -600,7 +673,7 @@ func genCase(t *rapid.T) Case {
 
 var prop = ev.Register(&ev.Prop[Case]{
 	ID: "C14", Name: "closenotify",
-	Rule: "orders of events {deliver 1..4 valid messages in arbitrary fragments (optionally one handler requests CloseNotify), request CloseNotify from another goroutine while the reader is parked, request it at an arbitrary moment, a Write that fails with a temporary error on the live connection} followed by exactly one terminating event {peer EOF, transport read error, undecodable message with 200 B / 9 KB of trailing data, local Close, the last message together with EOF / error, handler panic, three messages in one piece with EOF right behind them; EOF / read error / local Close while a handler waits for a channel requested earlier} and 0..2 requests after termination; 1 in 4 with a Write of another goroutine stuck in the transport when the connection terminates; on a plain connection and through sm.Client with the watchdog enabled; every channel must be open before and closed within 3 s after termination, messages dispatched once each in order, and no goroutine with diam.(*conn).serve / closeNotify.func / sm.(*Client).watchdog on its stack may remain; non-trivial = at least one CloseNotify request and one delivered message; distinct by event order",
+	Rule: "orders of events {deliver 1..4 valid messages in arbitrary fragments (optionally one handler requests CloseNotify; 1 in 4 deliveries with one message of 3..70 KB, larger than the read buffer of the connection, in fragments of up to 33 KB, its content compared in the handler), request CloseNotify from another goroutine while the reader is parked, request it at an arbitrary moment, a Write that fails with a temporary error on the live connection} followed by exactly one terminating event {peer EOF, transport read error, undecodable message with 200 B / 9 KB of trailing data, local Close, the last message together with EOF / error, handler panic, three messages in one piece with EOF right behind them; EOF / read error / local Close while a handler waits for a channel requested earlier} and 0..2 requests after termination; 1 in 4 with a Write of another goroutine stuck in the transport when the connection terminates; on a plain connection and through sm.Client with the watchdog enabled; every channel must be open before and closed within 3 s after termination, messages dispatched once each in order, and no goroutine with diam.(*conn).serve / closeNotify.func / sm.(*Client).watchdog on its stack may remain; non-trivial = at least one CloseNotify request and one delivered message; distinct by event order",
 	Gen:  genCase, Run: runCase, Classify: classify, Attempts: 5,
 })
 
